@@ -3,11 +3,13 @@ package main
 // debug.go: `harness dump -replay FILE` prints the recorded trace of a crashsim replay file.
 
 import (
-	"github.com/ryogrid/SamehadaDB/lib/storage/disk"
 	"encoding/binary"
 	"encoding/json"
 	"fmt"
+	"github.com/ryogrid/SamehadaDB/lib/storage/disk"
 	"os"
+	"reflect"
+	"unsafe"
 )
 
 func init() {
@@ -107,4 +109,16 @@ func dumpReplay(fn string) {
 		}
 	}
 	os.RemoveAll(cr.Dir)
+}
+
+// dumpLockTables (diagnosis only, VERIF_DUMP_STACKS=1): the lock manager's tables, read through reflection.
+func dumpLockTables(lm any) string {
+	v := reflect.ValueOf(lm).Elem()
+	out := ""
+	for _, f := range []string{"sharedLockTable", "exclusiveLockTable"} {
+		fv := v.FieldByName(f)
+		fv = reflect.NewAt(fv.Type(), unsafe.Pointer(fv.UnsafeAddr())).Elem()
+		out += f + ": " + fmt.Sprintf("%v", fv.Interface()) + "\n"
+	}
+	return out
 }
